@@ -9,6 +9,7 @@ from fractions import Fraction
 import numpy as np
 
 from harness import common as C
+from harness import sparsekde as K
 
 ANCHORS = {
     "src/skmatter/neighbors/_sparsekde.py": [
@@ -241,11 +242,158 @@ def part_a(ctx, stats):
     return cases, recs
 
 
+# =============================================================================== parts B, C
+def ocell(cell):
+    return "None" if cell is None else "(Some %s)" % C.flist(cell)
+
+
+def fmats(ms):
+    return "[" + "; ".join(C.fmat(m) for m in ms) + "]"
+
+
+def kde_case_coq(case, rec):
+    return "kde_case_ok 0x1p-27 0x1p-27 0x1p-24 %d%%nat %s %s %s %s %s %s %s %s %s %s %s %s" % (
+        case["d"], ocell(case["cell"]), C.fmat(case["G"]), C.fmat(case["D"]), C.flist(rec["weights"]),
+        C.flist(rec["W"]), natmat(rec["members"]), fmats(rec["bandwidth"]), fmats(rec["Hinv"]),
+        C.flist(rec["nk"]), C.fmat(case["Q"]), C.flist(rec["scores"]), C.fl(rec["score"]))
+
+
+def flib_selftest(rng):
+    xs = [rng.uniform(-30, 30) for _ in range(40)] + [rng.uniform(-700, 700) for _ in range(10)]
+    ys = [rng.uniform(-5, 5) for _ in xs]
+    a = np.array(xs)
+    return "flib_ok 0x1p-46 %s %s %s %s %s %s %s" % (
+        C.flist(xs), C.flist(np.exp(a)), C.flist(np.log(np.abs(a))), C.flist(np.sin(a)),
+        C.flist(np.cos(a)), C.flist(ys), C.flist(np.arctan2(np.array(ys), a)))
+
+
+SHARD_B = (C.SHARD_HEAD + "From Verif Require Import ListX MExp SparseKDEA.\n"
+           "From Coq Require Import List PrimFloat.\nImport ListNotations.\nOpen Scope float_scope.\n")
+
+
+def part_bc(ctx, stats):
+    ncases = 90 if ctx.quick else 1500
+    cases, recs = [], []
+    st = dict(cases=ncases, kinds={}, dims={}, periodic=0, fspread=0, fit_errors={}, nonfinite=0,
+              score_errors={}, kde_sent=0, kde_validated=0, kde_skipped_illcond=0, queries=0,
+              far_terms=0, near_terms=0, self_queries=0, bw_checked=0, bw_outside_proviso=0)
+    for _ in range(ncases):
+        c = K.gen_fit_case(ctx.rng, ctx.quick)
+        est, r = K.fit_impl(c)
+        if est is not None:
+            K.score_impl(est, c, r)
+        cases.append(c)
+        recs.append(r)
+        st["kinds"][c["kind"]] = st["kinds"].get(c["kind"], 0) + 1
+        st["dims"][str(c["d"])] = st["dims"].get(str(c["d"]), 0) + 1
+        st["periodic"] += c["cell"] is not None
+        st["fspread"] += "fspread" in c["kw"]
+        if "error" in r:
+            st["fit_errors"][r["error"]] = st["fit_errors"].get(r["error"], 0) + 1
+        if "score_error" in r:
+            st["score_errors"][r["score_error"]] = st["score_errors"].get(r["score_error"], 0) + 1
+    # ---- search with the property oracles (every case) ------------------------------------
+    for c, r in zip(cases, recs):
+        msg, bst = K.oracle_bandwidth(c, r)
+        st["bw_checked"] += bst["checked"]
+        st["bw_outside_proviso"] += bst["outside_proviso"]
+        if msg:
+            C.report_violation(ctx, "C17 fails on the implementation (bandwidth): " + msg,
+                               dict(case=c, observed=_slim(r)), key=bandwidth_key(c, r, msg), found_input=True)
+            continue
+        if "error" in r:
+            continue
+        msg = K.oracle_mixture(c, r)
+        if msg:
+            C.report_violation(ctx, "C17 fails on the implementation (mixture): " + msg,
+                               dict(case=c, observed=_slim(r)), key=mixture_key(c, r, msg), found_input=True)
+    # ---- correspondence of the mixture formula inside Coq ------------------------------------
+    idx = []
+    for i, (c, r) in enumerate(zip(cases, recs)):
+        if "error" in r or "score_error" in r:
+            continue
+        H = np.array(r["bandwidth"], dtype=float)
+        if not np.all(np.isfinite(H)):
+            st["nonfinite"] += 1
+            continue
+        if any(np.linalg.cond(h) > 1e6 for h in H) or any(K.mixture_reference(c, r)[1]):
+            st["kde_skipped_illcond"] += 1
+            continue
+        idx.append(i)
+        cut = K.kdecut2(c["d"])
+        Hinv = np.array(r["Hinv"])
+        D, G, Qa, _w, cell = K._arrays(c)
+        for x in Qa:
+            st["queries"] += 1
+            st["self_queries"] += K.is_descriptor(c, list(x))
+            for j in range(len(G)):
+                v = K.pbc_delta(x, G[j], cell)
+                if float(v @ Hinv[j] @ v) > cut:
+                    st["far_terms"] += 1
+                else:
+                    st["near_terms"] += 1
+    per = 45
+    groups = [idx[i:i + per] for i in range(0, len(idx), per)]
+    shards = []
+    for gi, g in enumerate(groups):
+        body = ";\n ".join(kde_case_coq(cases[i], recs[i]) for i in g)
+        extra = ""
+        if gi == 0:
+            extra = "Eval vm_compute in (failing [%s]).\n" % flib_selftest(ctx.rng)
+        shards.append(SHARD_B + extra + "Definition verdicts : list bool := [\n %s].\n"
+                      "Eval vm_compute in (failing verdicts).\n" % body)
+    outs = C.run_shards(ctx.prop + "b", shards)
+    mismatched = []
+    for gi, (g, (rc, out)) in enumerate(zip(groups, outs)):
+        lists = C.parse_nat_lists(out)
+        want = 2 if gi == 0 else 1
+        if rc != 0 or len(lists) != want:
+            C.report_violation(ctx, "C17 part B: correspondence shard did not evaluate",
+                               dict(coq_output=out[-1500:]), found_input=False)
+            continue
+        if gi == 0 and lists[0]:
+            C.report_violation(ctx, "C17: the Coq binary64 exp/log/sin/cos/atan2 disagree with numpy",
+                               dict(coq_output=out[-500:]), found_input=False)
+        mismatched += [g[k] for k in lists[-1]]
+    st["kde_sent"] = len(idx)
+    st["kde_validated"] = len(idx) - len(mismatched)
+    for i in mismatched:
+        msg = K.oracle_mixture(cases[i], recs[i])
+        rep = dict(case=cases[i], observed=_slim(recs[i]), correspondence="kde_case_ok (Model/SparseKDEA.v)")
+        if msg:
+            C.report_violation(ctx, "C17 fails on the implementation (mixture): " + msg, rep,
+                               key=mixture_key(cases[i], recs[i], msg), found_input=True)
+        else:
+            rep["note"] = "model and implementation disagree but the reference mixture accepts the output"
+            C.report_violation(ctx, "C17 part B: correspondence mixture model vs implementation broken",
+                               rep, found_input=False)
+    stats["mixture_bandwidth"] = st
+    return cases, recs
+
+
+def _slim(r):
+    keep = ("error", "error_msg", "score_error", "score_error_msg", "bandwidth", "W", "scores", "score", "labels")
+    out = {k: r[k] for k in keep if k in r}
+    out["grids"] = [dict(idx=g["idx"], flocal=g["flocal"], effdim=g.get("effdim"),
+                         eig=None if g.get("eig") is None else [str(z) for z in g["eig"]])
+                    for g in r.get("grids", [])]
+    return out
+
+
+def bandwidth_key(c, r, msg):
+    return None
+
+
+def mixture_key(c, r, msg):
+    return None
+
+
 # =============================================================================== driver
 def run(ctx):
     po = C.proof_obligations(ctx.prop)
     stats = {}
     casesA, recsA = part_a(ctx, stats)
+    casesB, recsB = part_bc(ctx, stats)
     if not po["ok"]:
         C.report_violation(ctx, "proof obligations of Properties/C17.v not discharged",
                            dict(theorem_file="coq/Properties/C17.v", log=po["log"][-2000:],
